@@ -3,6 +3,7 @@ package main
 
 import (
 	"fmt"
+	"sort"
 	"strings"
 	"time"
 
@@ -253,6 +254,91 @@ func longHistories(c *seq.Ctx) {
 	}
 }
 
+// ---- small cache: the logic keeps its per-destination records in an LRU of CacheSize entries ----
+//
+// A destination's record may legitimately disappear once CacheSize other destinations were used after
+// its last send; until then the sent code must stay verifiable.  One-sided model: `others[p]` is the
+// set of other destinations touched (send or verify, accepted or not) since the last accepted send
+// to p; while it has fewer than CacheSize members the statement's verify clause applies to p, after
+// that p is unconstrained until its next accepted send.
+
+type smallSt struct {
+	l      vcode.VCLogic
+	cap    *capture
+	mock   bool
+	size   int
+	m      map[pair]*rec
+	others map[pair]map[pair]bool
+}
+
+var smallPairs = []pair{{"86", "13800001234"}, {"86", "13900005678"}, {"44", "7700900123"}, {"1", "2025550100"}}
+
+func smallOps(ps []pair) []seq.Op[*smallSt] {
+	var o []seq.Op[*smallSt]
+	touch := func(s *smallSt, p pair) {
+		for _, q := range ps {
+			if q != p {
+				s.others[q][p] = true
+			}
+		}
+	}
+	for _, p := range ps {
+		p := p
+		o = append(o, seq.Op[*smallSt]{Name: fmt.Sprintf("Send(%s,%s)", p.area, p.phone), Step: func(s *smallSt) (string, string) {
+			hash, err := s.l.SendSMSCode(p.area, p.phone)
+			touch(s, p)
+			if err != nil {
+				return "refused", fmt.Sprintf("send to (%s,%s) refused with %v although neither the interval nor the count limit applies", p.area, p.phone, err)
+			}
+			code := mockCode(p.phone, 4)
+			if !s.mock {
+				code = s.cap.last[p]
+				delete(s.cap.last, p)
+			}
+			m := s.m[p]
+			m.sent, m.code, m.hash, m.attempts = true, code, hash, 0
+			s.others[p] = map[pair]bool{}
+			return "accepted", ""
+		}})
+		for _, right := range []bool{true, false} {
+			right := right
+			o = append(o, seq.Op[*smallSt]{Name: fmt.Sprintf("Verify(%s,%s,code=%s)", p.area, p.phone, rw(right)), Enabled: func(s *smallSt) bool { return s.m[p].sent },
+				Step: func(s *smallSt) (string, string) {
+					m := s.m[p]
+					code := m.code
+					if !right {
+						code = flip(code)
+					}
+					err := s.l.VerifySMSCode(p.area, p.phone, code, m.hash)
+					touch(s, p)
+					m.attempts++
+					if len(s.others[p]) >= s.size {
+						if err == nil && !right {
+							return "ok", fmt.Sprintf("(%s,%s) verified with a wrong code", p.area, p.phone)
+						}
+						return "unconstrained", "" // the record may have been evicted
+					}
+					want := right && m.attempts <= 2
+					if (err == nil) != want {
+						return fmt.Sprint(err == nil), fmt.Sprintf("attempt #%d on (%s,%s) with the %s code: verification %s (err=%v) although only %d other destination(s) %v were used since the code was sent and the cache holds %d — expected %s",
+							m.attempts, p.area, p.phone, rw(right), okStr(err == nil), err, len(s.others[p]), keys(s.others[p]), s.size, okStr(want))
+					}
+					return fmt.Sprint(err == nil), ""
+				}})
+		}
+	}
+	return o
+}
+
+func keys(m map[pair]bool) []string {
+	var o []string
+	for k := range m {
+		o = append(o, k.area+"-"+k.phone)
+	}
+	sort.Strings(o)
+	return o
+}
+
 func nonce(c *seq.Ctx) {
 	for _, base := range []string{"0123456789", "ab", "x", "0123456789abcdef"} {
 		asked := map[int]bool{}
@@ -316,7 +402,7 @@ func nonce(c *seq.Ctx) {
 
 func main() {
 	r := ev.Start("C19")
-	r.Rule("for every configuration (code length 4/6 x attempt limit 1/2 x send limit 1/2 x lifetime valid/expired x interval never/always-too-frequent x window never/always refreshed x mock on/off, clock frozen) every sequence of Send / Verify(right|wrong code x right|wrong hash) / Verify with the other pair's credentials over two (area, phone) pairs up to the stated depth on the real logic with a capturing SMS sender, against a per-pair reference (code, hash, attempts, sends); a second pair set whose plain concatenations collide (1,23)/(12,3); the nonce generator driven with every index answer; distinct = (op, answer) pairs")
+	r.Rule("for every configuration (code length 4/6 x attempt limit 1/2 x send limit 1/2 x lifetime valid/expired x interval never/always-too-frequent x window never/always refreshed x mock on/off, clock frozen) every sequence of Send / Verify(right|wrong code x right|wrong hash) / Verify with the other pair's credentials over two (area, phone) pairs up to the stated depth on the real logic with a capturing SMS sender, against a per-pair reference (code, hash, attempts, sends); a second pair set whose plain concatenations collide (1,23)/(12,3); a small-cache family (record cache of 1-3 entries, one destination more than entries, sequences of sends and right/wrong verifies: a sent code stays verifiable until CacheSize other destinations were used); the nonce generator driven with every index answer; distinct = (op, answer) pairs")
 	r.Assume("time.Now in vcode/vlogic.go is redirected to a frozen virtual clock (regimes decide every comparison)", "the send-count clause is checked as: sends <= MaxCount accepted, sends > MaxCount+1 refused")
 	vtime.NowFn = func() time.Time { return time.Unix(1700000000, 0) }
 	var jobs []func()
@@ -351,6 +437,28 @@ func main() {
 					}
 				}
 			}
+		}
+	}
+	for _, mock := range []bool{true, false} {
+		for _, sz := range []int{1, 2, 3} {
+			mock, sz := mock, sz
+			np := sz + 1
+			jobs = append(jobs, func() {
+				seq.Explore(r, &seq.Spec[*smallSt]{Name: fmt.Sprintf("vcode/small-cache/size=%d/destinations=%d/mock=%v", sz, np, mock), Ops: smallOps(smallPairs[:np]), Depth: r.Pick(6, 7) - sz/3, MaxViolations: 6,
+					Sig: func(path []string, msg string) string {
+						return "a sent code is lost although the cache had room for its destination"
+					},
+					New: func() *smallSt {
+						cp := &capture{last: map[pair]string{}}
+						cf := &vcode.Config{CacheSize: int64(sz), Mock: mock, CodeLen: 4, MaxCount: 1000, MaxVerifyCount: 2, TTL: tex.Duration(time.Hour), MinInterval: 0, CounterDuration: tex.Duration(time.Hour)}
+						s := &smallSt{l: vcode.NewSimpleLogic(cf, cp, nil), cap: cp, mock: mock, size: sz, m: map[pair]*rec{}, others: map[pair]map[pair]bool{}}
+						for _, p := range smallPairs[:np] {
+							s.m[p] = &rec{}
+							s.others[p] = map[pair]bool{}
+						}
+						return s
+					}})
+			})
 		}
 	}
 	jobs = append(jobs, func() { seq.RunFamily(r, seq.Family{Name: "nonce", Run: nonce}) })
